@@ -205,6 +205,49 @@ func (p *Parser) GenerateBaseCode() (code string, err error) {
 		// and must not stay linked from the file node.
 		p.file.Doc = nil
 	}
+	// The same holds for every other node that a removed line was the doc or line comment of.
+	emptied := func(cg *ast.CommentGroup) bool { return cg != nil && len(cg.List) == 0 }
+	ast.Inspect(p.file, func(node ast.Node) bool {
+		switch n := node.(type) {
+		case *ast.GenDecl:
+			if emptied(n.Doc) {
+				n.Doc = nil
+			}
+		case *ast.FuncDecl:
+			if emptied(n.Doc) {
+				n.Doc = nil
+			}
+		case *ast.TypeSpec:
+			if emptied(n.Doc) {
+				n.Doc = nil
+			}
+			if emptied(n.Comment) {
+				n.Comment = nil
+			}
+		case *ast.ValueSpec:
+			if emptied(n.Doc) {
+				n.Doc = nil
+			}
+			if emptied(n.Comment) {
+				n.Comment = nil
+			}
+		case *ast.ImportSpec:
+			if emptied(n.Doc) {
+				n.Doc = nil
+			}
+			if emptied(n.Comment) {
+				n.Comment = nil
+			}
+		case *ast.Field:
+			if emptied(n.Doc) {
+				n.Doc = nil
+			}
+			if emptied(n.Comment) {
+				n.Comment = nil
+			}
+		}
+		return true
+	})
 
 	// Remove doc comment of the interface.
 	// And also find the range pos of the interface in the code.
